@@ -117,6 +117,14 @@ def oracle(ctx, seeds=None):
                 continue
             def run():
                 s = getattr(impl.integ, name)(msh, disc)
+                if (i // 4) % 2 == 1:
+                    # the solver object has already run an UNSTEADY solve on the same discretisation (perturbed data): a new solve()
+                    # from the uniform state starts from scratch
+                    try:
+                        g_ = f.copy(); g_.data = [np.asarray(d, dtype=float) * (1.0 + 0.05 * np.cos(np.arange(np.asarray(d).shape[-1]) + 1.0)) for d in f.data]
+                        s.solve(g_, 0.4, stop={'maxit': 2})
+                    except Exception:
+                        pass
                 return s.solve(f, 0.4, stop={'maxit': 3}, directives={'dtlocal': True} if local else {})[-1]
             ok, out = impl.guarded(run)
             res.case(('solve', name, local, model))
